@@ -118,6 +118,9 @@ type c39Session struct {
 	Cuts    []int // message boundaries (offsets into Stream)
 	Frag    bool  // small write buffer: messages are split into continuation frames
 	TextAt  int   // index of the message that is sent as a text message instead (-1 = none)
+	TextKind   int  // what the text message carries: 0 = "not mqtt", 1 = a well-formed QoS 0 PUBLISH to a topic of the session (valid UTF-8), 2 = a PINGREQ
+	EmptyBefore bool // an empty binary message is sent directly before the text message
+	Empties    map[int]int // number of empty binary messages sent after segment k (a zero-length message carries no bytes of the stream)
 	MaxSeg  int
 }
 
@@ -179,6 +182,16 @@ func genC39(r *vk.Rand, i int) *c39Session {
 	s.Frag = r.Chance(35)
 	if r.Chance(15) && len(s.Cuts) > 2 {
 		s.TextAt = r.Range(1, len(s.Cuts)-1)
+		s.TextKind = r.Intn(3)
+		s.EmptyBefore = r.Bool()
+	}
+	s.Empties = map[int]int{}
+	if r.Chance(30) {
+		for k := range s.Cuts {
+			if r.Chance(10) {
+				s.Empties[k] = r.Range(1, 2)
+			}
+		}
 	}
 	return s
 }
@@ -221,7 +234,7 @@ func expectedReplies(s *c39Session, upto int) int {
 // transport abstracts the two ways of carrying the byte stream.
 type c39Conn interface {
 	sendBinary(b []byte) error
-	sendText() error
+	sendText(b []byte) error
 	local() string
 	// recv returns the next chunk of reply bytes; io.EOF (or any error) when the peer closed
 	recv() ([]byte, error)
@@ -231,7 +244,7 @@ type c39Conn interface {
 type tcpT struct{ c net.Conn }
 
 func (t *tcpT) sendBinary(b []byte) error { _, err := t.c.Write(b); return err }
-func (t *tcpT) sendText() error           { return t.c.(*net.TCPConn).CloseWrite() }
+func (t *tcpT) sendText(b []byte) error   { return t.c.(*net.TCPConn).CloseWrite() }
 func (t *tcpT) local() string             { return t.c.LocalAddr().String() }
 func (t *tcpT) recv() ([]byte, error) {
 	buf := make([]byte, 8192)
@@ -246,7 +259,7 @@ type wsT struct {
 }
 
 func (t *wsT) sendBinary(b []byte) error { return t.c.WriteMessage(websocket.BinaryMessage, b) }
-func (t *wsT) sendText() error           { return t.c.WriteMessage(websocket.TextMessage, []byte("not mqtt")) }
+func (t *wsT) sendText(b []byte) error   { return t.c.WriteMessage(websocket.TextMessage, b) }
 func (t *wsT) local() string             { return t.c.LocalAddr().String() }
 func (t *wsT) recv() ([]byte, error) {
 	mt, b, err := t.c.ReadMessage()
@@ -268,6 +281,19 @@ type c39Result struct {
 
 // runC39 plays the session: all segments before the final DISCONNECT, waits until the replies owed
 // have arrived, then the DISCONNECT (or, for text sessions, the text message / half-close) and waits for the close.
+// textPayload is what the text message carries. Kinds 1 and 2 are bytes that would be a well-formed packet
+// had they arrived in a binary message, so a broker that lets them through reads one packet more than over
+// TCP and keeps the connection open.
+func (s *c39Session) textPayload() []byte {
+	switch s.TextKind {
+	case 1:
+		return rc.Encode(&rc.Packet{Version: s.Ver, Type: rc.PUBLISH, Topic: s.ID + "/a", Payload: []byte("text")}, rc.FormAuto)
+	case 2:
+		return rc.Encode(&rc.Packet{Version: s.Ver, Type: rc.PINGREQ}, rc.FormAuto)
+	}
+	return []byte("not mqtt")
+}
+
 func runC39(t c39Conn, s *c39Session, segs [][]byte, tail [][]byte, want int, text bool) c39Result {
 	var res c39Result
 	var mu sync.Mutex
@@ -304,7 +330,10 @@ func runC39(t c39Conn, s *c39Session, segs [][]byte, tail [][]byte, want int, te
 	mu.Unlock()
 	wd.Stop()
 	if text {
-		_ = t.sendText()
+		if s.EmptyBefore {
+			_ = t.sendBinary(nil)
+		}
+		_ = t.sendText(s.textPayload())
 	} else {
 		for _, m := range tail {
 			_ = t.sendBinary(m)
@@ -341,7 +370,7 @@ func runC39(t c39Conn, s *c39Session, segs [][]byte, tail [][]byte, want int, te
 
 func checkC39(c *vk.Ctx) {
 	c.Rule = "random MQTT sessions (CONNECT v4/v5, 5-40 packets: SUBSCRIBE/UNSUBSCRIBE to own topics, PUBLISH QoS 0-2 with payloads 0..5000 bytes echoed back through the session's own subscriptions, PUBREL, PINGREQ, then DISCONNECT once every owed reply has arrived) sent (1) over a loopback TCP listener and (2) over the WebSocket listener of an identically configured broker with the byte stream cut into binary messages at PRNG boundaries (segment size 1..N, N in {1,2,7,64,200,1000,4096,whole}; 35% with a 32-byte client write buffer so that messages are fragmented into continuation frames): " +
-		"the sequence of packets the broker read (OnPacketRead: type, QoS, id, topic, payload length+hash, filters) must be identical, the concatenated binary replies must decode cleanly (strict reference decoder) to the same multiset of packets as over TCP and to the number of packets the session is owed, and the connection must end after DISCONNECT. In 15% of the sessions a TEXT message is sent after a prefix of the stream: the broker must have processed exactly the packets completed before it and must close the connection. nontrivial = sessions in which at least one packet spanned two WebSocket messages or one message carried several packets"
+		"the sequence of packets the broker read (OnPacketRead: type, QoS, id, topic, payload length+hash, filters) must be identical, the concatenated binary replies must decode cleanly (strict reference decoder) to the same multiset of packets as over TCP and to the number of packets the session is owed, and the connection must end after DISCONNECT. In 15% of the sessions a TEXT message is sent after a prefix of the stream (carrying junk, a well-formed QoS 0 PUBLISH or a PINGREQ; in half of them directly after an empty binary message): the broker must have processed exactly the packets completed before it - none of the text message's bytes - and must close the connection. 30% of the sessions interleave empty binary messages (which carry no bytes of the stream) with the others. nontrivial = sessions in which at least one packet spanned two WebSocket messages or one message carried several packets"
 	c.Assumptions = []string{"reply order between acknowledgements (reader goroutine) and forwarded publishes (write loop) is not fixed, so replies are compared as multisets", "gorilla/websocket client is trusted as the WebSocket peer"}
 	srv, err := startC39()
 	if err != nil {
@@ -379,6 +408,7 @@ func checkC39(c *vk.Ctx) {
 		want := expectedReplies(s, upto)
 		var segs [][]byte
 		spanning, multi := false, false
+		nEmpty := 0
 		bounds := map[int]bool{}
 		off := 0
 		for _, p := range s.Packets {
@@ -394,6 +424,10 @@ func checkC39(c *vk.Ctx) {
 				break
 			}
 			segs = append(segs, body[prev:cut])
+			for e := 0; e < s.Empties[len(segs)-1]; e++ {
+				segs = append(segs, nil)
+				nEmpty++
+			}
 			if !bounds[cut] {
 				spanning = true
 			}
@@ -437,7 +471,7 @@ func checkC39(c *vk.Ctx) {
 		wres := runC39(wt, s, segs, tail, want, text)
 		tRead, wRead := srv.tcpLog.take(tRemote), srv.wsLog.take(wRemote)
 		attrs := map[string]string{"fragmented": fmt.Sprint(s.Frag), "text_message": fmt.Sprint(text), "max_segment": fmt.Sprint(s.MaxSeg)}
-		wit := map[string]any{"session": i, "version": s.Ver, "packets": len(s.Packets), "stream_bytes": len(s.Stream), "cuts": s.Cuts, "fragmented": s.Frag, "text_at": s.TextAt, "replies_owed": want}
+		wit := map[string]any{"session": i, "version": s.Ver, "packets": len(s.Packets), "stream_bytes": len(s.Stream), "cuts": s.Cuts, "fragmented": s.Frag, "text_at": s.TextAt, "text_kind": s.TextKind, "empty_before_text": s.EmptyBefore, "empty_messages": nEmpty, "replies_owed": want}
 		if tres.starved && !text {
 			c.Inconclusive(fmt.Sprintf("session %d: TCP reference run did not complete (%d of %d replies)", i, tres.nReplies, want))
 			return
@@ -471,8 +505,15 @@ func checkC39(c *vk.Ctx) {
 		c.Count("packets_read_by_broker", int64(len(wRead)))
 		c.Count("reply_bytes", int64(len(wres.replies)))
 		c.Count("reply_packets", int64(len(wres.descr)))
+		c.Count("empty_binary_messages", int64(nEmpty))
 		if text {
 			c.Count("text_message_sessions", 1)
+			if s.EmptyBefore {
+				c.Count("text_directly_after_empty_binary_message", 1)
+			}
+			if s.TextKind > 0 {
+				c.Count("text_messages_carrying_a_wellformed_packet", 1)
+			}
 		}
 		if spanning {
 			c.Count("sessions_with_packet_spanning_messages", 1)
